@@ -111,7 +111,7 @@ type rSlot struct {
 	it    *Interp
 	id    int
 	order uint32
-	beh   string // pass nil wait panic bf bc bo
+	beh   string // pass nil wait wait0 panic bf bc bo
 	typ   base.BlockType
 	hook  string
 	rule  *rule
@@ -133,6 +133,8 @@ func (s *rSlot) Check(ctx *base.EntryContext) *base.TokenResult {
 		return nil
 	case "wait":
 		return base.NewTokenResultShouldWait(1000)
+	case "wait0":
+		return base.NewTokenResultShouldWait(0)
 	case "panic":
 		panic("rule slot panic")
 	case "bf":
@@ -222,7 +224,7 @@ func (it *Interp) addSlot(sc *base.SlotChain, tok string) bool {
 	case "r":
 		s := &rSlot{it: it, id: id, order: uint32(ord), beh: f[3], hook: hook, rule: &rule{id}}
 		switch f[3] {
-		case "pass", "nil", "wait", "panic":
+		case "pass", "nil", "wait", "wait0", "panic":
 		default:
 			if len(f[3]) < 3 || (f[3][:2] != "bf" && f[3][:2] != "bc" && f[3][:2] != "bo") {
 				return false
